@@ -616,5 +616,8 @@ func Run(args []string) int {
 	}
 	r := kit.NewRand(f.Seed)
 	generate(out, r, f.N, f.Tier)
+	if f.Tier == "thorough" {
+		raceTasks(out, f.Seed, f.N)
+	}
 	return 0
 }
